@@ -1,21 +1,23 @@
 (** The executable instance of the driver model used by the correspondence: all carriers are
     [unit] (the schedule, the label trace, the record list and the interrupt behaviour do not
-    depend on what the kernels compute - that is what the theorems say). *)
+    depend on what the kernels compute - that is what the theorems say), except the RF modulation
+    records, which are numbered ([tMd = Z]: record j is the one precomputed for step j) so that the
+    model says which record lands in which flushed chunk. *)
 From Coq Require Import List ZArith Bool.
 From Inovesa Require Import Model.Driver Gen.Gen_MainLoop.
 Import ListNotations.
 Local Open Scope Z_scope.
 
 Definition unitK : kern :=
-  mkkern unit unit unit unit unit unit unit unit unit unit unit unit
+  mkkern unit unit unit unit unit unit unit unit unit Z unit unit
     (fun _ => tt) (fun _ => tt) (fun _ => tt) (fun _ _ => tt) (fun _ _ => tt) (fun _ _ => tt)
     (fun _ _ => tt) (fun _ _ => tt) (fun _ _ => tt) (fun _ _ => tt) (fun _ => tt)
-    (fun _ _ => tt) (fun _ _ => tt) (fun _ => tt) (fun _ => tt) (fun _ _ _ _ _ _ => (tt, tt)) tt.
+    (fun _ _ => tt) (fun _ _ => tt) (fun _ => tt) (fun _ => tt) (fun _ _ _ _ _ _ => (tt, tt)) (-1).
 
 (** state at "Starting the simulation.": [pc0] hook points were passed during set-up, the flag is
-    set iff one of them was signalled; the modulation queue holds [laststep] entries *)
+    set iff one of them was signalled; the modulation queue holds the [laststep] records 0, 1, ... *)
 Definition st0 (c : cfg) (at_ : Z) (pc0 : Z) : st unitK :=
-  mkst (K:=unitK) 0 0 tt tt tt tt tt tt tt tt tt tt tt tt (repeat tt (Z.to_nat (laststep c))) [] tt tt
+  mkst (K:=unitK) 0 0 tt tt tt tt tt tt tt tt tt tt tt tt (List.map Z.of_nat (seq 0 (Z.to_nat (laststep c)))) [] tt tt
        ((0 <=? at_) && (at_ <? pc0)) pc0 [] [] None [].
 
 Inductive rkind := KPS | KDef | KCsr | KWake | KTracks | KRF | KPadded.
@@ -30,9 +32,18 @@ Definition summary (r : rec unitK) : rkind * Z * Z :=
   | RPadded _ => (KPadded, rstep r, 1)
   end.
 
+(** the flushed chunks of RF records: (step number of the flush, numbers of the records in it) *)
+Fixpoint rf_chunks (l : list (rec unitK)) : list (Z * list Z) :=
+  match l with
+  | [] => []
+  | r :: t => match rdata r with RRF x => (rstep r, x) :: rf_chunks t | _ => rf_chunks t end
+  end.
+
 Record outcome := mkout { o_trace : list (Z * Z); o_file : list (rkind * Z * Z); o_log : list msg;
-                          o_status : option Z; o_k : Z; o_abort : bool; o_pc : Z }.
+                          o_status : option Z; o_k : Z; o_abort : bool; o_pc : Z;
+                          o_rf : list (Z * list Z); o_pending : list Z }.
 
 Definition model_run (c : cfg) (at_ : Z) (rep : bool) (pc0 : Z) : outcome :=
   let s := run (hooksig at_ rep) c main_prog (st0 c at_ pc0) in
-  mkout (trace s) (List.map summary (file s)) (log s) (status s) (k s) (abort s) (pc s).
+  mkout (trace s) (List.map summary (file s)) (log s) (status s) (k s) (abort s) (pc s)
+        (rf_chunks (file s)) (past s).
